@@ -82,6 +82,17 @@ fn lists(tier: Tier) -> Vec<Option<Vec<u8>>> {
             v.push(Some(if (rel + k) % 2 == 0 { vec![rel, k] } else { vec![k, rel] }));
         }
     }
+    // long lists (more than 64 and more than 128 entries): a held id behind / in front of / between
+    // runs of 64 distinct unknown ids, and such runs alone
+    let run = |from: u8| -> Vec<u8> { (from..from + 64).collect() };
+    v.push(Some(run(100)));
+    for k in 0..4u8 {
+        v.push(Some([run(100), vec![k]].concat()));
+        v.push(Some([vec![k], run(100)].concat()));
+        if tier == Tier::Thorough || k % 2 == 0 {
+            v.push(Some([run(100), vec![k], run(170)].concat()));
+        }
+    }
     v
 }
 fn list_ids(l: &Option<Vec<u8>>) -> Option<Vec<Vec<u8>>> {
@@ -92,6 +103,7 @@ fn list_ids(l: &Option<Vec<u8>>) -> Option<Vec<Vec<u8>>> {
                 5 => ident(0)[..8].to_vec(),
                 6 => [ident(0), vec![0x00]].concat(),
                 7 => vec![],
+                100..=255 => [vec![0xE0, i], vec![0x5A; 14]].concat(),
                 _ => ident(UNKNOWN),
             })
             .collect()
@@ -443,7 +455,7 @@ pub fn run(ctx: &Ctx) -> Result<Run, String> {
     let n = cs.len() as u64 + csched;
     let mut run = Run::from_stats(
         "model_checking",
-        "universe of 4 credentials (2 RPs x 2, equal user handles across RPs): all 16 store contents x RP in {a, b, RP without credentials, a in another letter case, a with a trailing dot} x lists {absent, empty, sub-lists of the 4 ids + 1 unknown id (size <= 2 in both orders quick, all 31 thorough), and ids in a value relation to a held id (a strict prefix of it, it plus one byte, the empty id) alone and next to each of the 4 ids} x transports hints on the descriptors {none, disjoint from the authenticator's, overlapping, mixed, empty} x listing order {newest, oldest first} for get_assertion (allow list) and make_credential (exclude list) on the real Authenticator over the contract store; and the same contents/lists/RPs against find_credentials of MemoryStore, Option<Passkey> and their four lock wrappers (wrappers compared with the store they wrap); plus every interleaving of a registration whose exclude list names a held credential with a concurrent assertion over Arc<Mutex<_>> and Arc<RwLock<_>> (must be refused in every schedule). Non-trivial = distinct case with a non-empty store",
+        "universe of 4 credentials (2 RPs x 2, equal user handles across RPs): all 16 store contents x RP in {a, b, RP without credentials, a in another letter case, a with a trailing dot} x lists {absent, empty, sub-lists of the 4 ids + 1 unknown id (size <= 2 in both orders quick, all 31 thorough), and ids in a value relation to a held id (a strict prefix of it, it plus one byte, the empty id) alone and next to each of the 4 ids, and lists of 64..129 entries in which a held id sits behind, in front of or between runs of 64 unknown ids} x transports hints on the descriptors {none, disjoint from the authenticator's, overlapping, mixed, empty} x listing order {newest, oldest first} for get_assertion (allow list) and make_credential (exclude list) on the real Authenticator over the contract store; and the same contents/lists/RPs against find_credentials of MemoryStore, Option<Passkey> and their four lock wrappers (wrappers compared with the store they wrap); plus every interleaving of a registration whose exclude list names a held credential with a concurrent assertion over Arc<Mutex<_>> and Arc<RwLock<_>> (must be refused in every schedule). Non-trivial = distinct case with a non-empty store",
         true,
         stats,
     );
